@@ -75,12 +75,12 @@ var shapes = map[string][]node{
 	"dep-never-arrives": {{t: canon.NH, ni: "DEFAULT", key: 0}, {t: canon.NHG, ni: "DEFAULT", key: 0, nhs: []uint64{1, 3}}, {t: canon.V4, ni: "DEFAULT", key: 0, nhg: 1}, {t: canon.V4, ni: "DEFAULT", key: 1, nhg: 3}},
 	"two-tops-same-key": {{t: canon.NH, ni: "DEFAULT", key: 0}, {t: canon.NHG, ni: "DEFAULT", key: 0, nhs: []uint64{1}}, {t: canon.NHG, ni: "DEFAULT", key: 1, nhs: []uint64{1}}, {t: canon.V4, ni: "DEFAULT", key: 0, nhg: 1}, {t: canon.V4, ni: "DEFAULT", key: 0, nhg: 2}},
 	// a group that grows by a next-hop which may or may not have arrived yet (two writes of the group key)
-	"group-grows":       {{t: canon.NH, ni: "DEFAULT", key: 0}, {t: canon.NH, ni: "DEFAULT", key: 1}, {t: canon.NHG, ni: "DEFAULT", key: 0, nhs: []uint64{1}}, {t: canon.NHG, ni: "DEFAULT", key: 0, nhs: []uint64{1, 2}}, {t: canon.V4, ni: "DEFAULT", key: 0, nhg: 1}},
+	"group-grows": {{t: canon.NH, ni: "DEFAULT", key: 0}, {t: canon.NH, ni: "DEFAULT", key: 1}, {t: canon.NHG, ni: "DEFAULT", key: 0, nhs: []uint64{1}}, {t: canon.NHG, ni: "DEFAULT", key: 0, nhs: []uint64{1, 2}}, {t: canon.V4, ni: "DEFAULT", key: 0, nhg: 1}},
 	// one prefix written twice: pointing at its own instance's group and at the same id in another instance
 	"retarget-cross-ni": {{t: canon.NH, ni: "DEFAULT", key: 0}, {t: canon.NHG, ni: "DEFAULT", key: 0, nhs: []uint64{1}}, {t: canon.NH, ni: "VRF1", key: 0}, {t: canon.NHG, ni: "VRF1", key: 0, nhs: []uint64{1}}, {t: canon.V4, ni: "VRF1", key: 0, nhg: 1}, {t: canon.V4, ni: "VRF1", key: 0, nhg: 1, nhgNI: "DEFAULT"}},
 	// one label written twice with different groups, a second entry keeps the first group referenced
-	"retarget-mpls":     {{t: canon.NH, ni: "DEFAULT", key: 0}, {t: canon.NHG, ni: "DEFAULT", key: 0, nhs: []uint64{1}}, {t: canon.NHG, ni: "DEFAULT", key: 1, nhs: []uint64{1}}, {t: canon.MPLS, ni: "DEFAULT", key: 0, nhg: 1}, {t: canon.MPLS, ni: "DEFAULT", key: 0, nhg: 2}, {t: canon.V6, ni: "DEFAULT", key: 0, nhg: 1}},
-	"three-level-wide":  {{t: canon.NH, ni: "VRF2", key: 0}, {t: canon.NH, ni: "VRF2", key: 1}, {t: canon.NHG, ni: "VRF2", key: 0, nhs: []uint64{1}}, {t: canon.NHG, ni: "VRF2", key: 1, nhs: []uint64{2}}, {t: canon.V4, ni: "VRF2", key: 0, nhg: 1}, {t: canon.MPLS, ni: "DEFAULT", key: 0, nhg: 2, nhgNI: "VRF2"}},
+	"retarget-mpls":    {{t: canon.NH, ni: "DEFAULT", key: 0}, {t: canon.NHG, ni: "DEFAULT", key: 0, nhs: []uint64{1}}, {t: canon.NHG, ni: "DEFAULT", key: 1, nhs: []uint64{1}}, {t: canon.MPLS, ni: "DEFAULT", key: 0, nhg: 1}, {t: canon.MPLS, ni: "DEFAULT", key: 0, nhg: 2}, {t: canon.V6, ni: "DEFAULT", key: 0, nhg: 1}},
+	"three-level-wide": {{t: canon.NH, ni: "VRF2", key: 0}, {t: canon.NH, ni: "VRF2", key: 1}, {t: canon.NHG, ni: "VRF2", key: 0, nhs: []uint64{1}}, {t: canon.NHG, ni: "VRF2", key: 1, nhs: []uint64{2}}, {t: canon.V4, ni: "VRF2", key: 0, nhg: 1}, {t: canon.MPLS, ni: "DEFAULT", key: 0, nhg: 2, nhgNI: "VRF2"}},
 }
 
 func permutations(n int, fn func([]int)) {
